@@ -149,6 +149,13 @@ def run_case(ctx, mr, case):
             sub = rng.choice(['', 'a/b'])
             info = P.write_cdn_dir(fsobj, conts, title_id=tid, titlekey=titlekey, common_key_x=ckx, common_key_index=cki, present=present,
                                    upper_case_names=upper, with_ticket=(mode == 'ticket'), subdir=sub)
+            # a DIRECTORY that carries the id of a missing content file (left behind by an unpacking tool), lower or upper case: the content
+            # is missing all the same and the others are not affected (no random draw: the older cases stay as they were)
+            for c in conts:
+                if c['index'] not in present and (c['index'] + len(conts)) % 2 == 0:
+                    nm = '%08x' % c['id']
+                    fsobj.makedirs((sub + '/' if sub else '') + (nm.upper() if c['index'] % 3 == 0 else nm), recreate=True)
+                    ctx.stat('cdn_directory_named_like_a_missing_content')
             kw = {}
             if mode == 'enc':
                 kw = dict(titlekey=info['enc_titlekey'], common_key_index=cki)
